@@ -258,7 +258,6 @@ pub fn profile_for(id: &str, rng: &mut Rng) -> Profile {
                 p.w_ddl = 2;
                 p.w_auto = 60;
             }
-            p.guards.push("uncheckpointed_create_with_open_txn".into()); // D3
             p.guards.push("crash_after_stolen_page".into()); // S1 (fault-space guard)
             p.guards.push("checkpoint_with_open_txn".into()); // F4
             if id == "C08" {
